@@ -45,16 +45,26 @@ def proj_val(v, scale):
     return int(round(v * scale * VQ))
 
 
-def to_tensor(maps, S, C, H, W, scale):
+F64_EPS = 2.0 ** -34      # float64 family: value = 1/4 + k * 2^-34 (exact in float64; neighbours collapse in float32)
+
+
+def to_tensor(maps, S, C, H, W, scale, f64=False):
     import torch
 
+    if f64:
+        t = torch.tensor(maps, dtype=torch.float64).reshape(S, C, H, W)
+        return (t / scale) * F64_EPS + 0.25
     t = torch.tensor(maps, dtype=torch.float32).reshape(S, C, H, W)
     return t / scale if scale != 1 else t
 
 
-def local_rows(out, scale):
+
+
+def local_rows(out, scale, f64=False):
     pts, vals, si, ci = out
     pts, vals, si, ci = pts.tolist(), vals.tolist(), si.tolist(), ci.tolist()
+    if f64:
+        vals = [(v - 0.25) / F64_EPS for v in vals]
     rows = []
     for p, v, s, c in zip(pts, vals, si, ci):
         xq, yq, cls = proj_point(p[0], p[1])
@@ -64,12 +74,14 @@ def local_rows(out, scale):
     return rows
 
 
-def global_rows(out, scale):
+def global_rows(out, scale, f64=False):
     pts, vals = out
     S, C = vals.shape[0], vals.shape[1]
     if tuple(pts.shape) != (S, C, 2):
         return [[0, 0, BIG, "badshape"]]
     pts, vals = pts.reshape(-1, 2).tolist(), vals.reshape(-1).tolist()
+    if f64:     # a below-threshold map reports the value 0, which is not on the lattice: keep it 0
+        vals = [0.0 if v == 0 else (v - 0.25) / F64_EPS for v in vals]
     rows = []
     for p, v in zip(pts, vals):
         xq, yq, cls = proj_point(p[0], p[1])
@@ -83,13 +95,14 @@ def observe_local(case):
     from sleap_nn.inference import peak_finding as pf
 
     H, W, S, C, scale = case["h"], case["w"], case["s"], case["c"], case["scale"]
-    thr = case["thr"] / scale
+    f64 = bool(case.get("f64"))
+    thr = (case["thr"] / scale) * F64_EPS + 0.25 if f64 else case["thr"] / scale
     rec = dict(case, rough=[], none=[], ref=[], raised="")
     ps = rec.pop("ps")
     try:
-        cms = to_tensor(case["maps"], S, C, H, W, scale)
-        rec["rough"] = local_rows(pf.find_local_peaks_rough(cms.clone(), threshold=thr), scale)
-        rec["none"] = local_rows(pf.find_local_peaks(cms.clone(), threshold=thr, refinement=None), scale)
+        cms = to_tensor(case["maps"], S, C, H, W, scale, f64)
+        rec["rough"] = local_rows(pf.find_local_peaks_rough(cms.clone(), threshold=thr), scale, f64)
+        rec["none"] = local_rows(pf.find_local_peaks(cms.clone(), threshold=thr, refinement=None), scale, f64)
         for P in ps:
             rec["ref"].append(dict(p=P, rows=local_rows(
                 pf.find_local_peaks(cms.clone(), threshold=thr, refinement="integral", integral_patch_size=P), scale)))
@@ -103,13 +116,14 @@ def observe_global(case):
     from sleap_nn.inference import peak_finding as pf
 
     H, W, S, C, scale = case["h"], case["w"], case["s"], case["c"], case["scale"]
-    thr = case["thr"] / scale
+    f64 = bool(case.get("f64"))
+    thr = (case["thr"] / scale) * F64_EPS + 0.25 if f64 else case["thr"] / scale
     rec = dict(case, rough=[], none=[], ref=[], raised="")
     ps = rec.pop("ps")
     try:
-        cms = to_tensor(case["maps"], S, C, H, W, scale)
-        rec["rough"] = global_rows(pf.find_global_peaks_rough(cms.clone(), threshold=thr), scale)
-        rec["none"] = global_rows(pf.find_global_peaks(cms.clone(), threshold=thr, refinement=None), scale)
+        cms = to_tensor(case["maps"], S, C, H, W, scale, f64)
+        rec["rough"] = global_rows(pf.find_global_peaks_rough(cms.clone(), threshold=thr), scale, f64)
+        rec["none"] = global_rows(pf.find_global_peaks(cms.clone(), threshold=thr, refinement=None), scale, f64)
         for P in ps:
             rec["ref"].append(dict(p=P, rows=global_rows(
                 pf.find_global_peaks(cms.clone(), threshold=thr, refinement="integral", integral_patch_size=P), scale)))
@@ -277,6 +291,11 @@ def build_cases(tier, rng, ps=(3, 5)):
         part = [list(rng.choice(m22)) for _ in range(4)]
         cases.append(dict(h=2, w=2, s=2, c=2, thr=rng.choice(THRS), scale=1, maps=part, ps=list(ps)))
     cases += random_cases(rng, 400 if tier == "quick" else 4000)
+    # float64 maps whose cells differ by less than float32 resolution (1/4 + k * 2^-34): the detector must compare the values
+    # it was given, not float32 roundings of them.  Rough detection only (the spec's refinement weights are the integers k).
+    src = [c for c in cases if c["scale"] == 1 and c["h"] * c["w"] <= 9]
+    for c in rng.sample(src, min(len(src), 300 if tier == "quick" else 3000)):
+        cases.append(dict(c, f64=True, ps=[], maps=[list(m) for m in c["maps"]]))
     return cases, fed, n_exh
 
 
